@@ -110,7 +110,39 @@ pub fn gen_tree(r: &mut Rng, n: usize, rich: bool, invalid: usize) -> Vec<TreeOp
     let mut tree = Vec::new();
     let fork_rate = *r.pick(&[10u64, 20, 35, 50]);
     let mut invalid_left = invalid;
+    // "race" shape: a few long competing branches extended in turn, so that the tip flips back
+    // and forth across deep fork points (and across epoch boundaries)
+    let race = r.chance(2, 5);
+    let mut active: Vec<usize> = vec![0];
     for i in 0..n {
+        if race {
+            if active.len() < 3 && r.chance(1, 6) {
+                // fork off a block a few steps below one of the active tips
+                let mut b = *r.pick(&active);
+                for _ in 0..r.urange(0, 6) {
+                    if b == 0 {
+                        break;
+                    }
+                    b = parents[b - 1];
+                }
+                active.push(b);
+            }
+            let a = r.idx(active.len());
+            let parent = active[a];
+            parents.push(parent);
+            number.push(number[parent] + 1);
+            let mut recipe = gen_recipe(r, i as u64 + 1, rich);
+            let mut ok = valid[parent];
+            if invalid_left > 0 && i > 1 && r.chance(1, (n as u64 / (invalid as u64 + 1)).max(2)) {
+                recipe.mutation = Some(r.pick(MUTATIONS).to_string());
+                invalid_left -= 1;
+                ok = false;
+            }
+            valid.push(ok);
+            tree.push(TreeOp { parent, recipe });
+            active[a] = number.len() - 1;
+            continue;
+        }
         // valid tips, best first
         let mut vt: Vec<usize> = (0..number.len()).filter(|k| valid[*k]).collect();
         vt.sort_by_key(|k| (u64::MAX - number[*k], *k));
